@@ -350,7 +350,7 @@ fn nmd_variants() -> Vec<(Vec<VertexElement>, [u8; 3])> {
     ]
 }
 
-//@unit props=C07,C06 label=B tier=quick native=1 fn=model::MDL::{write_to_buffer,from_existing,update_headers} bound="by execution: resources/tests/c0201e0038_top_zeroed.mdl with the declaration of one mesh (mesh 1 of LOD 0, mesh 5 of LOD 2) rewritten to each of 4 layouts (every (usage, type) pair the writer supports, interleaved element order, two streams) and its vertices replaced by canonical pseudo-random values; the unmodified model; and an edit history (remove_shape_meshes, then replace_vertices on both meshes of LOD 0 / LOD 2 with fewer vertices and indices and re-split sub-meshes)"
+//@unit props=C07,C06 label=B tier=quick native=1 fn=model::MDL::{write_to_buffer,from_existing,update_headers} bound="by execution: resources/tests/c0201e0038_top_zeroed.mdl with the declaration of one mesh (mesh 1 of LOD 0, mesh 5 of LOD 2) rewritten to each of 4 layouts (every (usage, type) pair the writer supports, interleaved element order, two streams) and its vertices replaced by canonical pseudo-random values; the unmodified model; and an edit history (remove_shape_meshes, then replace_vertices on both meshes of LOD 0 / LOD 2 with fewer vertices and indices and re-split sub-meshes, and once with 70002 indices in the first mesh so that the second mesh starts beyond index 65535)"
 //@desc a model written by the library parses back to the same geometry: every vertex attribute of every part (the rewritten part and the untouched ones), every index, the declarations, mesh records and file header; i.e. the writer stores each attribute at LOD vertex offset + stream offset + element offset + stride*k in its own encoding and the reader finds it there
 #[test]
 fn native_mdl_write_parse_identity() {
@@ -394,14 +394,15 @@ fn native_mdl_write_parse_identity() {
         }
     }
     // an edit history: shape meshes removed, then both meshes of a LOD replaced by smaller geometry (so the second mesh's first index moves), for LOD 0 and LOD 2
-    for l in [0usize, 2] {
+    for (l, big) in [(0usize, false), (2, false), (0, true)] {
         let mut mdl = MDL::from_existing(&bytes).unwrap();
         mdl.remove_shape_meshes();
         let mut start = 0u32; let mut want: Vec<(Vec<Vertex>, Vec<u16>, Vec<(u32, u32)>)> = vec![];
         for p in 0..mdl.lods[l].parts.len() {
             let j = mdl.lods[l].parts[p].mesh_index as usize;
             let elements = mdl.model_data.header.vertex_declarations[j].elements.clone();
-            let (nv, ni) = if p == 0 { (300usize, 612usize) } else { (50, 90) };
+            // `big`: the first mesh gets 70002 indices, so the second mesh starts beyond index 65535
+            let (nv, ni) = if p == 0 { if big { (3000usize, 70002usize) } else { (300, 612) } } else { (50, 90) };
             let verts: Vec<Vertex> = (0..nv).map(|k| nmd_vertex(&elements, k, (7000 + l * 10 + p) as u32)).collect();
             let indices: Vec<u16> = (0..ni).map(|k| ((k * 7 + p) % nv) as u16).collect();
             let nsub = mdl.lods[l].parts[p].submeshes.len();
